@@ -267,6 +267,7 @@ class Obligation:
 class Ctx:
     def __init__(self, engine, decisions):
         self.engine = engine
+        engine.current_cx = self
         self.decisions = list(decisions)
         self.taken = []
         self.pc = []           # list of z3 Bool (assumptions + branch conditions)
@@ -364,6 +365,9 @@ class Ctx:
         goal = b2z(goal)
         ob = Obligation(name, kind, list(self.pc), goal, lineno, tuple(self.taken))
         self.engine.discharge(ob)
+        if ob.status == 'refuted' and self.state.get('weak_invariant'):
+            ob.status = 'unknown'
+            ob.note = 'undecided, not refuted: ' + self.state['weak_invariant']
         self.obligations.append(ob)
         if assume_after:
             self.assume(goal)
